@@ -49,11 +49,35 @@ def _fbytes(x):
 
 
 # registry: id(hashable_function wrapper) -> (wrapper, identifier); filled by the corpus builder
-HF_IDENT = {}
+class _Registry(dict):
+    """id(wrapper) -> (wrapper, identifier); permanent entries survive forget()."""
+
+    def __init__(self):
+        self.permanent = {}
+
+    def __missing__(self, key):
+        return self.permanent[key]
+
+    def __contains__(self, key):
+        return dict.__contains__(self, key) or key in self.permanent
+
+    def get(self, key, default=None):
+        try:
+            return self[key]
+        except KeyError:
+            return default
 
 
-def register_hashable_function(wrapper, identifier):
-    HF_IDENT[id(wrapper)] = (wrapper, identifier)
+HF_IDENT = _Registry()
+
+
+def register_hashable_function(wrapper, identifier, permanent=False):
+    (HF_IDENT.permanent if permanent else HF_IDENT)[id(wrapper)] = (wrapper, identifier)
+
+
+def forget_hashable_functions():
+    """Drop the non-permanent registrations (they keep the wrappers and their identifiers alive)."""
+    HF_IDENT.clear()
 
 
 def class_ident(c):
@@ -170,6 +194,8 @@ def _canon(v, memo):
             w, ident = HF_IDENT[id(v)]
         except KeyError:
             raise Unclassified('hashable_function with unknown identifier')
+        if w is not v:
+            raise Unclassified('hashable_function with unknown identifier')
         return _h('nutils.hashable_function', _canon(ident, memo))
     if t is pytypes.MethodType:
         return _h('method', _canon(v.__self__, memo), _canon(v.__name__, memo))
@@ -183,7 +209,10 @@ def _canon(v, memo):
         return _h('stream', class_ident(t), str(pos).encode(), content)
     if t is nt.arraydata:
         a = numpy.asarray(v)
-        return _h('nutils.arraydata', _KIND[v.dtype], repr(tuple(int(n) for n in v.shape)).encode(), _elements(a))
+        kind = a.dtype.kind
+        if kind not in 'biufc':
+            raise Unclassified('arraydata of dtype kind ' + kind)
+        return _h('nutils.arraydata', b'i' if kind in 'iu' else kind.encode(), repr(tuple(int(n) for n in a.shape)).encode(), _elements(a))
     if isinstance(v, (nt.Immutable, nt.DataClass)):
         key = id(v)
         hit = memo.get(key)
@@ -466,3 +495,46 @@ def lookalike_only_diff(a, b):
         except Unclassified:
             return False
     return walk(a, b) and state['n'] > 0
+
+
+def object_digest(cls, args, memo=None):
+    """Canonical digest that a nutils object of class ``cls`` with reduce-arguments ``args`` must have."""
+    memo = {} if memo is None else memo
+    return _h('nutils-object', class_ident(cls), *[_canon(a, memo) for a in args])
+
+
+def arg_difference(requested, actual):
+    """Compare requested construction arguments with the arguments the returned object holds.
+    -> 'same' | 'lookalike-bif' (differences only between ==-equal python bool/int/float) |
+       'lookalike-other' (differences only between ==-equal values of other types) | 'different'"""
+    state = {'bif': 0, 'other': 0, 'diff': 0}
+
+    def walk(x, y):
+        try:
+            if canon(x) == canon(y):
+                return
+        except Unclassified:
+            state['diff'] += 1
+            return
+        if type(x) is tuple and type(y) is tuple and len(x) == len(y):
+            for p, q in zip(x, y):
+                walk(p, q)
+            return
+        try:
+            eq = bool(x == y)
+        except Exception:
+            eq = False
+        if not eq:
+            state['diff'] += 1
+        elif type(x) in (bool, int, float) and type(y) in (bool, int, float):
+            state['bif'] += 1
+        else:
+            state['other'] += 1
+    walk(tuple(requested), tuple(actual))
+    if state['diff']:
+        return 'different'
+    if state['other']:
+        return 'lookalike-other'
+    if state['bif']:
+        return 'lookalike-bif'
+    return 'same'
